@@ -120,6 +120,24 @@ impl<C: Config> Engine<C> {
     pub(in crate::engine::computation_graph) async fn acquire_active_input_session_guard(
         &self,
     ) -> (WriteTransaction<C>, ActiveInputSessionGuard) {
+        // The exclusive phase lock must be held before the session's write
+        // batch is created and before the timestamp is bumped: otherwise a
+        // reader that already holds the shared lock could observe the new
+        // timestamp together with the old inputs (and mark queries verified
+        // for it), and write batches created by such readers would be ordered
+        // after the session's batch in the store.
+        let guard = self
+            .computation_graph
+            .database
+            .sync
+            .phase_mutex
+            .clone()
+            .write_owned()
+            .await;
+
+        #[cfg(qbice_verif)]
+        crate::verif::point("session_after_lock");
+
         let mut write_buffer = self
             .computation_graph
             .database
@@ -144,18 +162,6 @@ impl<C: Config> Engine<C> {
 
         #[cfg(qbice_verif)]
         crate::verif::point("session_after_bump");
-
-        let guard = self
-            .computation_graph
-            .database
-            .sync
-            .phase_mutex
-            .clone()
-            .write_owned()
-            .await;
-
-        #[cfg(qbice_verif)]
-        crate::verif::point("session_after_lock");
 
         (write_buffer, ActiveInputSessionGuard(Arc::new(guard)))
     }
